@@ -178,10 +178,14 @@ package socket
 //
 // Accept: accept4(2) with SOCK_NONBLOCK|SOCK_CLOEXEC (assumed): a new descriptor owned by the caller, registered nowhere,
 // with a fresh byte stream in both directions, and the peer's address; or an error and nothing.
+// accfd / accsa (bookkeeping): descriptor and peer address returned by the most recent successful Accept.
+//@ ghost log accfd int
+//@ ghost log accsa Ref
 //@ func Accept(fd int) (nfd int, sa unix.Sockaddr, err error)
 //@   noverify accept4(2) wrapper (kernel interface)
 //@   requires owner[fd] != nil
-//@   modifies owner, polled, armed, kpos, spos
+//@   modifies owner, polled, armed, kpos, spos, accfd, accsa
+//@   ensures err == nil ==> accfd == nfd && accsa == ref(sa)
 //@   ensures err == nil ==> nfd >= 0 && nfd != fd && owner[nfd] != nil && !polled[nfd] && !armed[nfd] && kpos[nfd] == 0 && spos[nfd] == 0 && old(owner[nfd]) == nil
 //@   ensures err == nil ==> (typeis(sa, "*unix.SockaddrInet4") || typeis(sa, "*unix.SockaddrInet6") || typeis(sa, "*unix.SockaddrUnix")) && ref(sa) != nil
 //@   ensures forall f :: f != nfd || err != nil ==> owner[f] == old(owner[f]) && polled[f] == old(polled[f]) && armed[f] == old(armed[f]) && kpos[f] == old(kpos[f]) && spos[f] == old(spos[f])
